@@ -695,9 +695,11 @@ class ComplexModelMeta(with_metaclass(Prepareable, type(ModelBase))):
             if self.Attributes._subclasses is eattr._subclasses:
                 self.Attributes._subclasses = None
 
-            # the customized variants of the parent class are not variants of
-            # this class. Without its own attribute, lookups would fall through
-            # to the parent's Attributes.
+        if self.__orig__ is None:
+            # the customized variants of a base class (the parent, a mixin, a
+            # base that had no fields yet) are not variants of this class.
+            # Without its own attribute, lookups would fall through to the
+            # base's Attributes.
             self.Attributes._variants = None
 
         # sanitize fields
